@@ -284,6 +284,22 @@ pub fn run(run: &mut Run) {
                 // order preserved, operands intact: [a + c, a, c, (a + c) + a, a] against the model
                 let probe = E::List(vec![cat(), av(), cv(), E::Bin("+", b(cat()), b(av())), av(), E::Bin("+", b(av()), b(av())), av()]);
                 judge(run, "concat", kind, &probe, &mut env, &ctx, None);
+                // every ownership mix of the operands: context variable (shared storage), literal and
+                // temporary (uniquely owned storage), on either side
+                let la = || E::Lit(a.clone());
+                let lc = || E::Lit(c.clone());
+                let probe2 = E::List(vec![
+                    E::Bin("+", b(av()), b(lc())),
+                    E::Bin("+", b(la()), b(cv())),
+                    E::Bin("+", b(la()), b(lc())),
+                    E::Bin("+", b(av()), b(E::Bin("+", b(cv()), b(cv())))),
+                    E::Bin("+", b(av()), b(E::Bin("+", b(cv()), b(lc())))),
+                    E::Bin("+", b(E::Bin("+", b(la()), b(cv()))), b(av())),
+                    E::Bin("+", b(E::Bin("+", b(av()), b(lc()))), b(E::Bin("+", b(lc()), b(av())))),
+                    av(),
+                    cv(),
+                ]);
+                judge(run, "concat-ownership", kind, &probe2, &mut env, &ctx, None);
                 // the context variables themselves are unchanged afterwards
                 for (nm, orig) in [("a", a), ("c", c)] {
                     match ctx.get_variable(nm) {
